@@ -164,6 +164,14 @@ def _(v):
         v.prove("forward_iff_ion_product_exceeds_Ksp", SP.iff(r, (1 / ion_product) * (1 + 1e-14) < 1 / K))
     small = 1e-30
     v.prove("backward_iff_solid_gone", SP.iff(v.call(bw, x, None), SP.neg(c[2] < small)))
+    # the condition object is kept by the solver object (get_neqsys) and re-used: it must decide with the constant the equilibrium has NOW
+    K2 = v.real("Ksp_changed_later", lo=1e-3, hi=50)
+    es.rxns[0].param = K2 if which else 1 / K2
+    r2 = v.call(fw, x, None)
+    if which:
+        v.prove("forward_condition_follows_a_changed_constant", SP.iff(r2, ion_product > K2 * (1 + 1e-14)))
+    else:
+        v.prove("forward_condition_follows_a_changed_constant", SP.iff(r2, (1 / ion_product) * (1 + 1e-14) < 1 / K2))
 
 
 def _processors(name):
@@ -256,3 +264,26 @@ def _(v):
     ap = v.real("activity_product", lo=0, hi=10)
     res2 = v.call(equilibrium_residual, rc, _arr(cs), _arr(nus), K, lambda c: ap)
     v.prove_identity("activity_product_multiplies_the_quotient", res2, K - q * ap)
+
+
+@harness("C08", "sanity_of_special_values", functions=[EQ + ":EqSystem._result_is_sane", "chempy.reactionsystem:ReactionSystem.upper_conc_bounds"], kind="data")
+def _(v):
+    """'sane' must imply non-negative for EVERY species, also one whose elemental bound is infinite (an electron: no element in its composition),
+    and a vector containing nan is not a composition at all"""
+    import warnings
+    import numpy as np
+    from collections import OrderedDict
+    from chempy.chemistry import Equilibrium, Species
+    from chempy.equilibria import EqSystem
+    subs = OrderedDict((k, Species.from_formula(k)) for k in ["H+", "e-", "H2"])
+    es = EqSystem([Equilibrium({"H+": 2, "e-": 2}, {"H2": 1}, 10.0)], subs)
+    c0 = {"H+": 1.0, "e-": 1.0, "H2": 0.5}
+    ub = es.upper_conc_bounds(c0)
+    v.prove("electron_has_no_elemental_bound", ub[1] == float("inf") and ub[0] == 2.0 and ub[2] == 1.0, detail=repr(ub))
+    with warnings.catch_warnings():
+        warnings.simplefilter("ignore")
+        v.prove("negative_unbounded_species_is_not_sane", es._result_is_sane(c0, np.array([1.0, -0.87, 0.5])) is False)
+        v.prove("negative_bounded_species_is_not_sane", es._result_is_sane(c0, np.array([-1e-3, 1.0, 0.5])) is False)
+        v.prove("above_the_bound_is_not_sane", es._result_is_sane(c0, np.array([2.1, 1.0, 0.5])) is False)
+        v.prove("admissible_state_is_sane", es._result_is_sane(c0, np.array([0.5, 0.5, 0.75])) is True and es._result_is_sane(c0, np.array([0.0, 1e9, 1.0])) is True)
+        v.prove("nan_is_not_sane", es._result_is_sane(c0, np.array([np.nan, 1.0, 0.5])) is False and es._result_is_sane(c0, np.array([np.nan] * 3)) is False)
